@@ -701,7 +701,7 @@ func (s *sys) callBucket(t *rapid.T) {
 		}
 		return bktStr(b), true
 	}
-	switch uniform(t, "bucket-call", 9) {
+	switch uniform(t, "bucket-call", 10) {
 	case 0:
 		id, b := s.pickBucket(t)
 		s.logf("FindBucketByID(%v)", id)
@@ -727,6 +727,40 @@ func (s *sys) callBucket(t *rapid.T) {
 		want, found := bstr(b)
 		g, gok := bstr(got)
 		s.single(t, "FindBucketByName", found, want, found && s.mayReadBucket(b), g, gok, err, before)
+	case 9:
+		// general filter: an id together with an organization (and sometimes a name) drawn
+		// independently, so the filter need not be self-consistent. Whatever the wrapped service
+		// resolves it to is what has to be authorized - not what the filter claims.
+		id, _ := s.pickBucket(t)
+		f := influxdb.BucketFilter{ID: &id}
+		what := fmt.Sprintf("{id=%v", id)
+		if uniform(t, "with-org", 4) != 0 {
+			org, _ := s.pickOrg(t)
+			f.OrganizationID = &org
+			what += fmt.Sprintf(",org=%v", org)
+		}
+		if uniform(t, "with-name", 3) == 0 {
+			_, nb := s.pickBucket(t)
+			name := "no-such-bucket"
+			if nb != nil {
+				name = nb.Name
+			}
+			f.Name = &name
+			what += fmt.Sprintf(",name=%q", name)
+		}
+		what += "}"
+		s.logf("FindBucket(%s)", what)
+		under, uerr := s.ten.FindBucket(s.bg, f)
+		if uerr != nil {
+			under = nil
+		}
+		got, err := s.bktW.FindBucket(s.ctx, f)
+		want, found := bstr(under)
+		g, gok := bstr(got)
+		if found && f.OrganizationID != nil && *f.OrganizationID != under.OrgID {
+			rec.Class("bucket-filter:org-differs-from-resolved-bucket")
+		}
+		s.single(t, "FindBucket"+what, found, want, found && s.mayReadBucket(under), g, gok, err, before)
 	case 2, 3:
 		f := influxdb.BucketFilter{}
 		what := "{}"
